@@ -571,7 +571,12 @@ func (w *waBuilder) build(fr *waFrame, from int, ctx0 int) []waExit {
 								fmt.Fprintln(os.Stderr, "WA-PREFIX", g.fn.Name(), "arg", arg, "in", g.parent.fn.Name(), "pre", pre, "path", path)
 							}
 							if pre == "" {
-								break // the receiver is the caller's own receiver (or unknown): nothing to prefix
+								// the receiver is the caller's own receiver handed on (a helper method calling another): the
+								// same part of the codec, whose place is known one frame further up
+								if pf := g.parent.fn; pf.Signature.Recv() != nil && len(pf.Params) > 0 && arg == ssa.Value(pf.Params[0]) && g.parent.parent != nil {
+									continue
+								}
+								break // the receiver is the codec's own receiver (or unknown): nothing to prefix
 							}
 							path = pre + "." + path
 						}
